@@ -6,6 +6,7 @@ import KalignModel.Driver.Io
 import KalignModel.Driver.Misc
 import KalignModel.Driver.Bpm
 import KalignModel.Driver.Kmeans
+import KalignModel.Driver.Pipeline
 /-!
 Line-protocol driver: one operation per input line, one result line per operation.
 Only executable model definitions are imported here (no `Props`, no Mathlib), so a failing proof
@@ -13,7 +14,7 @@ never prevents the model from running.  Each slice of the model contributes an `
 -/
 namespace Kalign.Driver
 
-def tables : OpTable := weaveOps ++ paramOps ++ dpOps ++ ioOps ++ miscOps ++ bpmOps ++ kmeansOps
+def tables : OpTable := weaveOps ++ paramOps ++ dpOps ++ ioOps ++ miscOps ++ bpmOps ++ kmeansOps ++ pipelineOps
 
 def step (line : String) : String :=
   match (line.trimAscii.toString.splitOn " ").filter (· ≠ "") with
